@@ -77,6 +77,8 @@ def _dataset(seed, n, F, kind):
         d = r * 7.0 - 3.0 * n * F
     elif kind == "negative":
         d = -(r * 5.0 + 11.0)
+    elif kind == "positive":
+        d = r * 7.0 + 5.0
     else:  # large
         d = r * 1000.0 + 40000.0
     return d.reshape(n, F)
@@ -632,6 +634,172 @@ def _replay_global(case, seed):
     return core.result(v)
 
 
+# ------------------------------------------------------------------ refusal lattice (engine L)
+#
+# "a mismatching feature dimension raises ValueError": EVERY mismatching length m != F - the
+# broadcastable m = 1, the empty m = 0, F-1, F+1, F+2, 2F - at every entry point (accumulate /
+# apply of a vector, of 2-D and 3-D tensors along every axis, positive and negative, other axes
+# of extent 1, 2 or F itself), for statistics that were accumulated as vectors, as one tensor, or
+# loaded from file.  A refused call must leave the statistics alone: apply() of a probe is
+# bit-identical before and after, and accumulating one more valid vector afterwards gives the
+# transform of the model's vectors.  Every refused call gets its own object (exact replays).
+
+M_F = (1, 2, 3, 5)
+M_ORIGINS = ("vectors", "tensor", "loaded")
+M_DTYPES = ("float64", "float32", "int16")
+
+
+def _m_lengths(F):
+    return [m for m in sorted(set([0, 1, F - 1, F + 1, F + 2, 2 * F])) if m >= 0 and m != F]
+
+
+def _m_class(m, F):
+    return ("zero" if m == 0 else "one" if m == 1 else "F-1" if m == F - 1 else "F+1" if m == F + 1 else
+            "2F" if m == 2 * F else "other")
+
+
+def _m_entries(F):
+    """[pres, shape, axis] for every way of presenting a coefficient axis of length m"""
+    out = []
+    for m in _m_lengths(F):
+        for axis in (None, 0, -1):
+            out.append(["vec", [m], axis])
+        for other in (1, 2, F):
+            for pos in range(2):
+                sh = [other]
+                sh.insert(pos, m)
+                out += [["t2", sh, pos], ["t2", list(sh), pos - 2]]
+        for others in ((1, 1), (2, 1), (1, F), (2, 3)):
+            for pos in range(3):
+                sh = list(others)
+                sh.insert(pos, m)
+                out += [["t3", sh, pos], ["t3", list(sh), pos - 3]]
+    return out
+
+
+def _m_object(seed, F, norm_var, origin, scratch):
+    """(object with the statistics of rows 0..2, data)"""
+    from pydrobert.speech import post
+
+    data = _dataset(seed, 4, F, "mixed")
+    if origin == "loaded":
+        stats = np.zeros((2, F + 1))
+        for i in range(3):
+            for f in range(F):
+                stats[0, f] += data[i, f]
+                stats[1, f] += data[i, f] * data[i, f]
+            stats[0, F] += 1
+        path = os.path.join(scratch, "m.npy")
+        if not os.path.exists(path):
+            np.save(path, stats)
+        return post.Standardize(path, norm_var=norm_var), data
+    obj = post.Standardize(norm_var=norm_var)
+    if origin == "vectors":
+        for i in range(3):
+            obj.accumulate(sig.ro(data[i]))
+    else:
+        obj.accumulate(sig.ro(data[:3]), -1)
+    return obj, data
+
+
+def _m_one(seed, F, norm_var, origin, op, entry, dtype, in_place, scratch):
+    pres, shape, axis = entry
+    m = shape[0] if pres == "vec" else shape[axis]
+    obj, data = _m_object(seed, F, norm_var, origin, scratch)
+    probe = sig.ro(_separated(seed, (3, F), offset=70))
+    tags = dict(mode="mismatch", op=op, pres="vec" if pres == "vec" else "tensor", length=_m_class(m, F),
+                origin=origin)
+    case = dict(mode="mismatch", F=F, norm_var=norm_var, origin=origin, op=op, entry=entry, dtype=dtype,
+                in_place=in_place)
+    n = int(np.prod(shape))
+    x = (np.arange(n, dtype=np.float64) * 3.0 - 4.0).reshape(shape).astype(dtype)
+    pristine = x.tobytes()
+    with warnings.catch_warnings():
+        warnings.simplefilter("ignore")
+        before = computers.call(obj.apply, np.array(probe, copy=True), -1)
+        if before[0] != "ok":
+            raise core.HarnessError("apply of a matching probe raised %s: %s" % before[1:])
+        fn = obj.accumulate if op == "accumulate" else obj.apply
+        if op == "accumulate":
+            r = computers.call(fn, x) if axis is None else computers.call(fn, x, axis)
+        else:
+            r = computers.call(lambda: fn(x, in_place=in_place)) if axis is None else \
+                computers.call(fn, x, axis, in_place)
+        after = computers.call(obj.apply, np.array(probe, copy=True), -1)
+    viol = []
+    refused = r[0] == "exc" and r[1] == "ValueError"
+    if not refused:
+        viol.append(core.violation(
+            dict(tags, what="mismatch_accepted"),
+            "%s of a %s %s array (axis %r: %d coefficients) on statistics for %d coefficients: %s" % (
+                op, dtype, shape, axis, m, F, "returned normally" if r[0] == "ok" else "%s: %s" % (r[1], r[2])),
+            case))
+    same = after[0] == "ok" and _same_bits(after[1], before[1])
+    if refused and not same:
+        viol.append(core.violation(
+            dict(tags, what="refused_call_changed_statistics"),
+            "the refused %s of a %s %s array changed the transform: apply(probe)[0] %r -> %r" % (
+                op, dtype, shape, before[1][0].tolist(), after[1][0].tolist() if after[0] == "ok" else after[1:]),
+            case))
+    if (op == "accumulate" or not in_place) and x.tobytes() != pristine:
+        viol.append(core.violation(dict(tags, what="input_modified"),
+                                   "the refused %s changed its argument" % op, case))
+    if refused and same:
+        # one more valid vector: the transform of the four vectors of the model
+        with warnings.catch_warnings():
+            warnings.simplefilter("ignore")
+            r2 = computers.call(obj.accumulate, sig.ro(data[3]))
+            got = computers.call(obj.apply, np.array(probe, copy=True), -1)
+        mean, var = ref.mean_var([data[i] for i in range(4)])
+        want = ref.standardize(probe, mean, var, -1, norm_var)
+        if r2[0] != "ok" or got[0] != "ok" or not np.all(np.abs(got[1] - want) <= RTOL * (1.0 + np.abs(want))):
+            viol.append(core.violation(
+                dict(tags, what="after_refusal_values"),
+                "after the refused %s, accumulate of a valid vector and apply: %r, direct formula %r" % (
+                    op, got[1][0].tolist() if got[0] == "ok" and r2[0] == "ok" else (r2, got[:2]),
+                    want[0].tolist()), case))
+    return viol, (op, tags["pres"], tags["length"], r[0] if r[0] == "ok" else r[1], same)
+
+
+def _eval_mismatch(pt, seed):
+    F, norm_var, origin = pt
+    scratch = tempfile.mkdtemp(prefix="verif-")
+    viol, evals, obs = [], 0, set()
+    try:
+        for entry in _m_entries(F):
+            for dtype in M_DTYPES:
+                if dtype != "float64" and entry[0] == "t3":
+                    continue  # dtypes are varied on vectors and 2-D tensors
+                for op, ips in (("accumulate", (False,)), ("apply", (False, True))):
+                    for ip in ips:
+                        v, o = _m_one(seed, F, norm_var, origin, op, entry, dtype, ip, scratch)
+                        evals += 1
+                        viol.extend(v)
+                        obs.add(o)
+    finally:
+        shutil.rmtree(scratch, ignore_errors=True)
+    seen, uniq = set(), []
+    for v in viol:
+        h = core.sig_hash(v["tags"])
+        if h not in seen:
+            seen.add(h)
+            uniq.append(v)
+    return core.result(uniq, evals=evals, nontrivial_count=evals, obs=sorted(map(str, obs)), obs_is_set=True,
+                       sample=dict(F=F, norm_var=norm_var, origin=origin, lengths=_m_lengths(F),
+                                   inner="every presentation of a coefficient axis of every mismatching length "
+                                         "x dtype x {accumulate, apply, apply in_place}"))
+
+
+def _replay_mismatch(case, seed):
+    scratch = tempfile.mkdtemp(prefix="verif-")
+    try:
+        v, _ = _m_one(seed, case["F"], case["norm_var"], case["origin"], case["op"], case["entry"],
+                      case["dtype"], case["in_place"], scratch)
+    finally:
+        shutil.rmtree(scratch, ignore_errors=True)
+    return core.result(v)
+
+
 # ------------------------------------------------------------------ call histories on ONE object
 #
 # accumulate_bfs observes apply() with a fixed battery of probes after every accumulate.  Here
@@ -1057,4 +1225,15 @@ def subchecks(tier, seed):
             axes=dict(F=[1, 2, 3], norm_var=[True, False], dtype=["float64", "float32", "int32", "int16"],
                       other_extents=[1, 2, 3]),
             replay=lambda case: _replay_local(case, seed)),
+        core.SubCheck(
+            "mismatch", [(F, nv, o) for F in M_F for nv in (True, False) for o in M_ORIGINS],
+            lambda p: _eval_mismatch(p, seed),
+            "statistics of 3 vectors (accumulated one by one / as a tensor / loaded): accumulate and apply of "
+            "every presentation (vector; 2-D, 3-D tensor along every axis) of EVERY mismatching length "
+            "{0, 1, F-1, F+1, F+2, 2F} raise ValueError, leave apply() of a probe bit-identical and a later valid "
+            "accumulate gives the transform of the model's vectors; one new object per refused call",
+            axes=dict(F=list(M_F), norm_var=[True, False], origin=list(M_ORIGINS), dtype=list(M_DTYPES),
+                      lengths="0, 1, F-1, F+1, F+2, 2F (!= F)", other_extents="1, 2, F / (1,1), (2,1), (1,F), (2,3)",
+                      op=["accumulate", "apply", "apply in_place"]),
+            replay=lambda case: _replay_mismatch(case, seed)),
     ]
